@@ -112,6 +112,13 @@ def run_child(spec):
     return p.returncode, ops, p.stderr[-500:]
 
 
+def read_or_none(fn):
+    try:
+        return open(fn, "rb").read()
+    except OSError:
+        return None
+
+
 OBSERVED_NAMES = {}
 NAME_IDS = {"first": 1, "initial": 2, "renamed": 3, "described later": 4}
 
@@ -198,8 +205,8 @@ def decision_table(chk, tmp):
                 else:
                     res = 1 if exists else 0
                 obj.close()
-                if exists and mode != "overwrite" and open(fn, "rb").read() != marker[1]:
-                    chk.fail("clobbered", f"mode '{mode}' modified an existing file", {"mode": mode})
+                if exists and mode != "overwrite" and (not os.path.exists(fn) or open(fn, "rb").read() != marker[1]):
+                    chk.fail("clobbered", f"mode '{mode}' modified (or deleted) an existing file", {"mode": mode})
                 if exists and mode == "overwrite":
                     chk.search_cases += 1
                     back = ptm.FileProcessTensor("read", fn)
@@ -208,8 +215,8 @@ def decision_table(chk, tmp):
                     back.close()
             except Exception:
                 res = 3
-                if exists and open(fn, "rb").read() != marker[1]:
-                    chk.fail("clobbered", f"mode '{mode}' refused but modified the existing file", {"mode": mode})
+                if exists and (not os.path.exists(fn) or open(fn, "rb").read() != marker[1]):
+                    chk.fail("clobbered", f"mode '{mode}' refused but {'deleted' if not os.path.exists(fn) else 'modified'} the existing file", {"mode": mode})
                 if not exists and os.path.exists(fn) and mode == "read":
                     chk.fail("read-creates", "mode 'read' created a file", {})
             out.append(res)
@@ -358,13 +365,13 @@ def api_table(chk, tmp):
                     except Exception as ex:
                         chk.fail("api-table-raises", f"{entry}(unique={unique}, overwrite={overwrite}) on {'an existing' if exists else 'a new'} file raises {ex!r}", info)
                         continue
-                    code = 3 if raised else (0 if not exists else (1 if open(fn, "rb").read() != marker else 2))
+                    code = 3 if raised else (0 if not exists else (1 if read_or_none(fn) != marker else 2))
                     tables[entry] += [code, -1]
                     if exists and not overwrite:
-                        if not raised or open(fn, "rb").read() != marker:
+                        if not raised or read_or_none(fn) != marker:
                             chk.fail("clobbered", f"{entry}(unique={unique}, overwrite=False, process_tensor_file=<existing file>) "
                                      + ("did not refuse" if not raised else "refused") + " and the existing file "
-                                     + ("was replaced" if open(fn, "rb").read() != marker else "is unchanged"), info)
+                                     + ("was replaced" if read_or_none(fn) != marker else "is unchanged"), info)
                     elif raised:
                         chk.fail("api-table-raises", f"{entry}(unique={unique}, overwrite={overwrite}) refuses although "
                                  + ("overwriting was requested" if exists else "the file does not exist"), info)
@@ -440,7 +447,7 @@ def leftover_files(chk, tmp):
                     pass
             except Exception as ex:
                 raised = ex
-            if open(fn, "rb").read() != content:
+            if read_or_none(fn) != content:
                 chk.fail("clobbered", f"{cname} on an existing file ({kind}) changed it although overwriting was not requested"
                          + ("" if raised is None else f" (and raised {raised!r})"), info)
             elif raised is None:
